@@ -10,10 +10,20 @@ VDRIVE_OP(lts)
 	size_t k = c.at("k").get<size_t>();
 	VATA::ExplicitLTS lts(n);
 	// "twice": the question is asked twice on the same initialised object, the second answer counts (a result must depend
-	// on the object's contents only).  (Adding edges AFTER init() and initialising again is not offered: init() sizes the
-	// per-state label sets once - a new label afterwards writes past them.  The property does not speak about it.)
+	// on the object's contents only).  (Adding edges with a NEW label after init() and initialising again is not offered:
+	// init() sizes the per-state label sets once - a new label afterwards writes past them.)
+	// "grow": g - the object is filled with the first g edges, initialised and asked (answer discarded), then the remaining edges
+	// are added and it is initialised again.  Only offered when the later edges use labels the first part already has.
+	size_t grow = c.value("grow", c.at("edges").size());
+	size_t cnt = 0;
 	for (const json& e : c.at("edges"))
 	{
+		if (cnt++ == grow && grow < c.at("edges").size())
+		{
+			lts.init();
+			SetStage("computeSimulation (before growing)");
+			lts.computeSimulation(n);
+		}
 		lts.addTransition(e.at(0).get<size_t>(), e.at(1).get<size_t>(), e.at(2).get<size_t>());
 	}
 	lts.init();
